@@ -1,6 +1,7 @@
 mod exchange;
 mod charset;
 mod genx;
+mod happy;
 mod head;
 mod hostile;
 mod mp;
@@ -137,6 +138,7 @@ fn run_all(kind: &str, input: &str, outdir: &str, threads: usize, budget: Durati
                             "mpart" => mpart::run(&sc),
                             "settings" => settings::run(&sc),
                             "rt" => rt::run(&sc),
+                            "happy" => happy::run(&sc),
                             "charset" => {
                                 if util::gs(&sc, "kind") == "charset" {
                                     let thorough = std::env::var("VERIF_TIER").map(|t| t == "thorough").unwrap_or(false);
